@@ -324,7 +324,7 @@ func (w *world) mineTo(addr types.Address, n int) {
 	}
 	syncWallet(w.cm, w.hostWS, w.hostW)
 	syncWallet(w.cm, w.rentWS, w.rentW)
-	deadline := time.Now().Add(20 * time.Second)
+	deadline := time.Now().Add(12 * time.Second)
 	for {
 		tip, _ := w.ec.Tip()
 		if tip == w.cm.Tip() {
@@ -343,7 +343,7 @@ func (w *world) mine(n int) { w.mineTo(types.VoidAddress, n) }
 func (w *world) openStream() net.Conn {
 	s, err := w.tr.DialStream(context.Background())
 	must(err)
-	s.SetDeadline(time.Now().Add(15 * time.Second))
+	s.SetDeadline(time.Now().Add(8 * time.Second))
 	w.started++
 	return s
 }
@@ -352,7 +352,7 @@ func (w *world) openStream() net.Conn {
 // (handleHostStream logged its outcome, after the handler released the contract
 // lock) and returns the log entries written since the last call.
 func (w *world) quiesce() []logEntry {
-	deadline := time.Now().Add(20 * time.Second)
+	deadline := time.Now().Add(12 * time.Second)
 	for {
 		w.logMu.Lock()
 		n := len(w.finished)
